@@ -23,7 +23,7 @@ EXPLANATION = (
     "G = 2..3 (quick) / 2..4 (thorough) occupied blocks, all n_splits <= G, shuffle and balance on/off: exactly n_splits test sets, "
     "every sample tested exactly once, a test set never splits a block, no test set empty, and - when balancing - the populations "
     "handed to partition_by_sum are position by position those of the blocks in the (shuffled) order the folds are cut from; "
-    "n_splits > G rejected; the REAL BlockShuffleSplit._iter_test_indices under the same structural bound (G = 2..3 / 2..4 occupied "
+    "n_splits > G rejected; the REAL BlockShuffleSplit._iter_test_indices under the same structural bound (G = 2..3 occupied "
     "blocks, 1-2 splits, 1-3 balancing candidates per split, integer test sizes, scikit-learn's ShuffleSplit replaced by an assumed "
     "contract: candidates of the prescribed sizes, disjoint train/test block sets): every yielded test set is the set of ALL samples of "
     "the test blocks of one candidate of its own round, and that candidate's point balance is minimal among the round's candidates. "
@@ -33,7 +33,7 @@ EXPLANATION = (
     "12..40 very unevenly populated blocks."
 )
 TECHNIQUE = "contracts: constructors, partition_by_sum and the fold wiring of BlockKFold and BlockShuffleSplit by deductive verification (pyvc/z3, structural bound on the number of occupied blocks); the balance bound, fractional test sizes, reproducibility and larger layouts by bounded run-time contract checking (stand-in, not proof)"
-LEVEL_NOTE = "Proofs: constructors, partition_by_sum (array length <= 4/5, values symbolic), BlockKFold and BlockShuffleSplit fold wiring (<= 3/4 occupied blocks, samples and labels symbolic; scikit-learn's KFold / ShuffleSplit under assumed contracts). The count additivity behind 'balanced within one block population' and layouts with more blocks are bounded run-time contract checks against scikit-learn's real splitters."
+LEVEL_NOTE = "Proofs: constructors, partition_by_sum (array length <= 4/5, values symbolic), BlockKFold (<= 3/4 occupied blocks) and BlockShuffleSplit (<= 3 occupied blocks) fold wiring (samples and labels symbolic; scikit-learn's KFold / ShuffleSplit under assumed contracts). The count additivity behind 'balanced within one block population' and layouts with more blocks are bounded run-time contract checks against scikit-learn's real splitters."
 ASSUMPTIONS = ["verde.block_split labels (used as the oracle for 'same block') are correct - proved separately under C08"]
 
 
